@@ -120,6 +120,7 @@ type NodeSh struct {
 	role     string
 
 	closedSnaps  []*snapFile
+	logVer       uint64 // number of mutations of the disk-log shadow so far
 	mixedInstall bool // the recorded mixed-snapshot defect happened on this node (narrow taint)
 }
 
@@ -255,6 +256,13 @@ func (m *Monitor) Now() uint64 {
 	m.mu.Lock()
 	defer m.mu.Unlock()
 	return m.seq
+}
+
+// LogVersion returns the number of mutations of a node's disk-log shadow so far.
+func (m *Monitor) LogVersion(node string) uint64 {
+	m.mu.Lock()
+	defer m.mu.Unlock()
+	return m.node(node).logVer
 }
 
 // TermFloor returns the largest term observed so far for a node id.
@@ -479,6 +487,7 @@ func (m *Monitor) recomputeChains(n *NodeSh) {
 }
 
 func (m *Monitor) pushHist(n *NodeSh, seq uint64) {
+	n.logVer++
 	n.hist = append(n.hist, logVer{seq, n.lastIndex(), n.lastTerm()})
 	if len(n.hist) > 4096 {
 		n.hist = append([]logVer(nil), n.hist[2048:]...)
@@ -1405,7 +1414,9 @@ func (m *Monitor) onSample(ev *Event) {
 	}
 	n.role = s.State
 	// C09 (1): the configuration a node reports is the configuration entry at that index of its own log
-	if s.Cfg != nil && s.Cfg.Index > 0 {
+	// (only when the log shadow has not changed since before the sample was taken: otherwise the entry at that
+	// index may already be another one)
+	if s.Cfg != nil && s.Cfg.Index > 0 && s.LV == n.logVer {
 		if e := n.entry(s.Cfg.Index); e != nil && e.Type == 2 && e.Cfg != nil {
 			m.Counts["c09.cfg_vs_log_checks"]++
 			if !e.Cfg.Equal(s.Cfg) {
